@@ -492,6 +492,7 @@ type Clause struct {
 	File string
 	Ord  int // ordinal within its kind inside the contract
 	Family, Allowed string // onlywrites
+	Site            string // assert: Callee#n
 }
 
 func (c *Clause) HasTag(p string) bool {
@@ -909,6 +910,26 @@ func (db *ContractDB) ParseContractFile(fset *token.FileSet, f *ast.File, pkgPat
 				return fail(l.no, "onlywrites wants two quoted regular expressions")
 			}
 			cl := &Clause{Kind: "onlywrites", Tags: tags, Src: body, Line: l.no, File: filename, Family: fam, Allowed: alw}
+			cl.Ord = counts[word]
+			counts[word]++
+			cur.Clauses = append(cur.Clauses, cl)
+		case "assert":
+			// assert @Callee#n [tags] expr : must hold right before the n-th call (1-based, in SSA order)
+			// of Callee inside this function; the enclosing function's locals are in scope.
+			if cur == nil {
+				return fail(l.no, "assert outside a func contract")
+			}
+			fs := strings.SplitN(rest, " ", 2)
+			if len(fs) != 2 || !strings.HasPrefix(fs[0], "@") {
+				return fail(l.no, "assert wants: @Callee#n [tags] expr")
+			}
+			site := strings.TrimPrefix(fs[0], "@")
+			tags, body := parseTags(fs[1])
+			e, err := ParseExpr(body)
+			if err != nil {
+				return fail(l.no, "%v", err)
+			}
+			cl := &Clause{Kind: "assert", Tags: tags, Src: body, E: e, Line: l.no, File: filename, Site: site}
 			cl.Ord = counts[word]
 			counts[word]++
 			cur.Clauses = append(cur.Clauses, cl)
